@@ -254,7 +254,7 @@ Qed.
 
 (* ---- remove *)
 Definition remove_fun (k : iface) : node -> option path -> node * (bool * option path * bool) :=
-  fun n mgr => let '(n', removed) := remove_interface k n in (n', (removed, mgr, is_empty n')).
+  fun n mgr => let '(n', removed) := remove_interface k n in (n', (removed, mgr, destroyable n')).
 Definition drop_fun (last : seg) : node -> option path -> node * unit :=
   fun par _ => let '(par', _) := remove_node last par in (par', tt).
 
@@ -262,13 +262,13 @@ Lemma remove_unfold root p k :
   remove root p k =
   match with_node root p false [] None (remove_fun k) with
   | None => (root, Err InterfaceNotFound, [])
-  | Some (root', (removed, mgr, empty)) =>
+  | Some (root', (removed, mgr, destroy)) =>
       if negb removed then (root', Err InterfaceNotFound, [])
       else
         let sigs := match mgr with Some m => [SRemoved m p [k]] | None => [] end in
-        if empty then
+        if destroy then
           match rev p with
-          | [] => (root', Panic PUnwrap, sigs)
+          | [] => (root', Ok false, sigs)
           | last :: rparent =>
               match with_node root' (rev rparent) false [] None (drop_fun last) with
               | Some (root'', _) => (root'', Ok true, sigs)
@@ -337,9 +337,9 @@ Lemma remove_state root p k :
           exists root',
             get_child root' p = Some c' /\
             (forall q k', prefix p q = false -> std3 k' = false -> ulookup root' q k' = ulookup root q k') /\
-            if is_empty c' then
+            if destroyable c' then
               match p with
-              | [] => fst (remove root p k) = (root', Panic PUnwrap)
+              | [] => fst (remove root p k) = (root', Ok false)
               | _ :: _ =>
                   exists root'', fst (remove root p k) = (root'', Ok true) /\
                     forall q k', std3 k' = false ->
@@ -360,7 +360,7 @@ Proof.
   destruct (find_iface k (ifaces c)) eqn:Ek.
   - destruct Hs as [Hb Hs]. cbn in Hb, Hs. subst b. cbn [negb fst].
     exists root'. split; [exact Hget|]. split; [exact Hframe|].
-    destruct (is_empty c') eqn:Ee; [|reflexivity].
+    destruct (destroyable c') eqn:Ee; [|reflexivity].
     destruct p as [|x p0]; [reflexivity|].
     destruct (rev (x :: p0)) as [|last rparent] eqn:Erev.
     { apply (f_equal (@length _)) in Erev. rewrite rev_length in Erev. discriminate. }
@@ -399,12 +399,32 @@ Proof.
   - intros H. rewrite (H K1), (H K2), (H K3), (H KM). reflexivity.
 Qed.
 
+Lemma in_sget s : forall e, In e s -> exists v, sget s (fst (fst e)) (snd (fst e)) = Some v.
+Proof.
+  induction s as [|e0 s IH]; intros e He; [destruct He|]. cbn [sget].
+  destruct (key_eqb (fst (fst e)) (snd (fst e)) e0) eqn:E; [eexists; reflexivity|].
+  destruct He as [-> | He]; [|apply IH; exact He].
+  destruct e as [[q k] v]. cbn in E. rewrite key_eqb_refl in E. discriminate.
+Qed.
+
+Lemma has_descendant_true s p : has_descendant s p = true ->
+  exists q k v, strict_prefix p q = true /\ sget s q k = Some v.
+Proof.
+  unfold has_descendant. intros H. apply existsb_exists in H as [e [He Hp]].
+  destruct (in_sget s e He) as [v Hv]. exists (fst (fst e)), (snd (fst e)), v. split; assumption.
+Qed.
+
+Lemma has_children_false_leaf n q : has_children n = false -> q <> [] -> get_child n q = None.
+Proof.
+  unfold has_children. intros H Hq. apply get_child_leaf; [|exact Hq]. destruct (children n); [reflexivity | discriminate].
+Qed.
+
 Lemma remove_refines t s p k :
   Inv t s -> flag24 s (Rm p k) = None ->
   Inv (fst (fst (remove t p (ik k)))) (fst (spec_step s (Rm p k))) /\
   res_prop (Rm p k) (snd (fst (remove t p (ik k)))) = snd (spec_step s (Rm p k)) /\
-  (* beyond the property: the flag says whether nothing is left at p *)
-  (forall b, snd (fst (remove t p (ik k))) = Ok b -> b = bare (sdel s p k) p).
+  (* beyond the property: a node reported destroyed had nothing left registered at p *)
+  (snd (fst (remove t p (ik k))) = Ok true -> bare (sdel s p k) p = true).
 Proof.
   intros HI Hflag.
   pose proof (remove_state t p (ik k)) as Hst.
@@ -447,28 +467,35 @@ Proof.
       rewrite is_empty_spec in E2. exfalso.
       assert (emptied (sdel s p k) p = true); [|congruence].
       apply emptied_spec. intros k' Hk'. rewrite <- HI'. unfold ulookup. rewrite Hget. apply E2. exact Hk'. }
-  rewrite Hem in Hrest.
-  destruct (emptied (sdel s p k) p) eqn:Eem.
-  - (* the node is deleted; not flagged: not the root, nothing registered below, no manager here *)
-    destruct p as [|x p0]; [discriminate|].
-    destruct (has_descendant (sdel s (x :: p0) k) (x :: p0)) eqn:Ehd; [discriminate|].
-    destruct (sget (sdel s (x :: p0) k) (x :: p0) KM) eqn:Ekm; [discriminate|].
-    destruct Hrest as [root'' [Hres Hdrop]].
-    destruct (remove t (x :: p0) (ik k)) as [[t' r] sg]. cbn in Hres. inversion Hres; subst t' r. cbn [fst snd res_obs].
-    assert (Hbare : forall k', sget (sdel s (x :: p0) k) (x :: p0) k' = None).
-    { intros k'. rewrite emptied_spec in Eem. destruct k'; try (apply Eem; reflexivity). exact Ekm. }
-    split.
-    + intros q k'. rewrite Hdrop by apply ik_not_std3.
-      destruct (prefix (x :: p0) q) eqn:Epq; [|apply HI'].
-      apply prefix_app in Epq as [r ->]. destruct r as [|y r].
-      * rewrite app_nil_r. symmetry. apply Hbare.
-      * symmetry. apply (has_descendant_false _ _ Ehd). apply strict_prefix_app_true. discriminate.
-    + split; [reflexivity|]. intros b Hb. inversion Hb; subst b. symmetry. apply bare_spec. exact Hbare.
-  - destruct (remove t p (ik k)) as [[t' r] sg]. cbn in Hrest. inversion Hrest; subst t' r. cbn [fst snd res_obs].
-    split; [exact HI'|]. split; [reflexivity|]. intros b Hb. inversion Hb; subst b. symmetry.
-    destruct (bare (sdel s p k) p) eqn:Eb; [|reflexivity].
-    rewrite bare_spec in Eb. assert (emptied (sdel s p k) p = true); [|congruence].
-    apply emptied_spec. intros k' _. apply Eb.
+  unfold destroyable in Hrest. rewrite Hem in Hrest.
+  destruct (emptied (sdel s p k) p && negb (has_children (fst (remove_interface (ik k) c)))) eqn:Ed.
+  - apply andb_true_iff in Ed as [Eem Ech]. apply negb_true_iff in Ech.
+    destruct p as [|x p0].
+    + (* the root is never destroyed *)
+      destruct (remove t [] (ik k)) as [[t' r] sg]. cbn in Hrest. inversion Hrest; subst t' r. cbn [fst snd res_obs res_prop].
+      split; [exact HI'|]. split; [reflexivity | discriminate].
+    + (* a leaf is destroyed: nothing is registered below it; not flagged: no manager at it *)
+      assert (Ehd : has_descendant (sdel s (x :: p0) k) (x :: p0) = false).
+      { destruct (has_descendant (sdel s (x :: p0) k) (x :: p0)) eqn:E; [|reflexivity]. exfalso.
+        destruct (has_descendant_true _ _ E) as [q [k0 [v0 [Hq Hv]]]].
+        apply strict_prefix_app in Hq as [r [Hr ->]].
+        rewrite <- HI' in Hv. unfold ulookup in Hv. rewrite get_child_app, Hget in Hv.
+        rewrite (has_children_false_leaf _ r Ech Hr) in Hv. discriminate. }
+      rewrite Eem, Ehd in Hflag.
+      destruct (sget (sdel s (x :: p0) k) (x :: p0) KM) eqn:Ekm; [discriminate|].
+      destruct Hrest as [root'' [Hres Hdrop]].
+      destruct (remove t (x :: p0) (ik k)) as [[t' r] sg]. cbn in Hres. inversion Hres; subst t' r. cbn [fst snd res_obs res_prop].
+      assert (Hbare : forall k', sget (sdel s (x :: p0) k) (x :: p0) k' = None).
+      { intros k'. rewrite emptied_spec in Eem. destruct k'; try (apply Eem; reflexivity). exact Ekm. }
+      split.
+      * intros q k'. rewrite Hdrop by apply ik_not_std3.
+        destruct (prefix (x :: p0) q) eqn:Epq; [|apply HI'].
+        apply prefix_app in Epq as [r ->]. destruct r as [|y r].
+        -- rewrite app_nil_r. symmetry. apply Hbare.
+        -- symmetry. apply (has_descendant_false _ _ Ehd). apply strict_prefix_app_true. discriminate.
+      * split; [reflexivity|]. intros _. apply bare_spec. exact Hbare.
+  - destruct (remove t p (ik k)) as [[t' r] sg]. cbn in Hrest. inversion Hrest; subst t' r. cbn [fst snd res_obs res_prop].
+    split; [exact HI'|]. split; [reflexivity | discriminate].
 Qed.
 
 (* ---- histories *)
@@ -563,12 +590,12 @@ Proof.
   - rewrite Hr. apply spec_no_panic.
 Qed.
 
-(* beyond the property text: outside the known classes the flag returned by a successful removal
-   says whether nothing at all is left registered at the path *)
-Theorem remove_flag_partial : forall h, ~ Known_C24 h -> forall pre p k post b, h = pre ++ Rm p k :: post ->
-  snd (fst (remove (model_state pre) p (ik k))) = Ok b -> b = bare (sdel (spec_state pre) p k) p.
+(* beyond the property text: outside the known classes a removal that reports the object destroyed
+   left nothing at all registered at the path *)
+Theorem remove_flag_partial : forall h, ~ Known_C24 h -> forall pre p k post, h = pre ++ Rm p k :: post ->
+  snd (fst (remove (model_state pre) p (ik k))) = Ok true -> bare (sdel (spec_state pre) p k) p = true.
 Proof.
-  intros h Hk pre p k post b -> Hb.
+  intros h Hk pre p k post -> Hb.
   assert (Hf : first_flag [] (pre ++ Rm p k :: post) = None).
   { unfold Known_C24 in Hk. destruct (first_flag [] (pre ++ Rm p k :: post)); [exfalso; apply Hk; discriminate | reflexivity]. }
   destruct (first_flag_mid _ _ _ _ Hf) as [Hpre Hstep].
@@ -579,20 +606,7 @@ Qed.
 Definition sa : seg := B "a".
 Definition sb : seg := B "b".
 
-Definition h_root : list op := [At [] K1 1; Rm [] K1].
-Definition h_subtree : list op := [At [sa] K1 1; At [sa; sb] K2 2; Rm [sa] K1].
 Definition h_manager : list op := [At [sa] K1 1; At [sa] KM 2; Rm [sa] K1].
-
-Lemma root_remove_refuted : In RPanic (model_results h_root) /\ first_flag [] h_root = Some RootUnwrap.
-Proof. split; vm_compute; auto. Qed.
-
-Lemma subtree_refuted :
-  sget (spec_state h_subtree) [sa; sb] K2 = Some 2%N /\
-  ok_opt (lookup (model_state h_subtree) [sa; sb] (ik K2)) = None /\
-  ok_opt (call (model_state h_subtree) [sa; sb] (ik K2)) = None /\
-  seen_nested (model_state h_subtree) [sa; sb] (ik K2) = false /\
-  first_flag [] h_subtree = Some SubtreeDeleted.
-Proof. repeat split; vm_compute; reflexivity. Qed.
 
 Lemma manager_refuted :
   sget (spec_state h_manager) [sa] KM = Some 2%N /\
@@ -604,9 +618,17 @@ Proof. repeat split; vm_compute; reflexivity. Qed.
 
 Lemma full_statement_false : ~ C24_full_statement.
 Proof.
-  intros H. specialize (H h_root h_root [] (eq_sym (app_nil_r _))).
-  destruct H as [_ [_ [_ [_ [_ Hp]]]]]. apply Hp. apply root_remove_refuted.
+  intros H. specialize (H h_manager h_manager [] (eq_sym (app_nil_r _))).
+  destruct H as [Hl _]. specialize (Hl [sa] KM). vm_compute in Hl. discriminate.
 Qed.
+
+(* the two histories that used to break the server (fix f5fe3276) are now ordinary histories *)
+Definition h_root : list op := [At [] K1 1; Rm [] K1].
+Definition h_subtree : list op := [At [sa] K1 1; At [sa; sb] K2 2; Rm [sa] K1].
+Lemma repaired_ok : ~ Known_C24 h_root /\ ~ Known_C24 h_subtree /\
+  model_results h_root = [RBool true; RDone] /\
+  ok_opt (lookup (model_state h_subtree) [sa; sb] (ik K2)) = Some 2%N.
+Proof. repeat split; try (intros H; apply H; vm_compute; reflexivity); vm_compute; reflexivity. Qed.
 
 (* non-vacuity: a history outside the known classes that registers, nests, refuses a duplicate,
    fails a removal, removes a leaf, adds and removes a manager, and removes at the root while
